@@ -306,7 +306,9 @@ func (s *scheduler) point(kind, id int, force bool) {
 	s.handOff(t, kind, id, false)
 }
 
-func (s *scheduler) access(site, varID int, write bool, deref bool) {
+var fieldIDs = map[string]int{}
+
+func (s *scheduler) access(site, varID int, write bool, deref bool, field string) {
 	t := s.cur
 	if t == nil || s.aborted {
 		return
@@ -324,12 +326,21 @@ func (s *scheduler) access(site, varID int, write bool, deref bool) {
 	if isPoint {
 		s.handOff(t, pointAccess, varID, false)
 	}
+	key, name := varID, varName(varID)
 	if deref {
 		// the object a pointer-typed variable points to is a different location than the variable itself
-		s.checkRace(t, site, varID+1<<20, write, "*"+varName(varID))
-		return
+		key, name = key+1<<20, "*"+name
 	}
-	s.checkRace(t, site, varID, write, varName(varID))
+	if field != "" {
+		// each struct field is its own location (an immutable field read outside the lock that guards another one)
+		fid, ok := fieldIDs[field]
+		if !ok {
+			fid = len(fieldIDs) + 1
+			fieldIDs[field] = fid
+		}
+		key, name = key+fid<<21, name+"."+field
+	}
+	s.checkRace(t, site, key, write, name)
 }
 
 func varName(id int) string {
